@@ -216,15 +216,22 @@ def must_write_or_err(m, S, fn, k, memo, crm):
     F = m.functions[fn]
     der = F.based_on([k]) if k is not None else set()
     good = set()
+    wgood = set()        # the subset that writes the buffer itself
+    restores = []        # stores of a non-constant value into errno (the save / restore idiom)
     for I in F.all_insts():
         if I.op == "store":
             if I.ops[1][0] == "v" and I.ops[1][1] in der:
                 good.add(I.id)
+                wgood.add(I.id)
             J = F.insts.get(I.ops[1][1]) if I.ops[1][0] == "v" else None
             if J is not None and J.is_call and J.callee == "__errno_location":
                 c = ir.cval(I.ops[0], signed=True)
-                if c is None or c != 0:
-                    good.add(I.id)     # restoring a saved errno also counts as "errno is defined by this call"
+                if c is None:
+                    # restoring a saved errno defines nothing: the saved value may be 0 or a stale code.  It is harmless
+                    # after the result has been written (bcrypt restores errno after its self-test, on the success path)
+                    restores.append(I)
+                elif c != 0:
+                    good.add(I.id)
         elif I.is_call:
             cal = S.callees_of(F, I)
             if not cal:
@@ -246,7 +253,16 @@ def must_write_or_err(m, S, fn, k, memo, crm):
                         allok = False
             if allok:
                 good.add(I.id)
+                if any(a[0] == "v" and a[1] in der for a in I.ops):
+                    wgood.add(I.id)
     pf = ir.PathFinder(F, const_ret=crm)
+    # a restore that can be reached before the buffer has been written may discard the errno of a failed libc call made
+    # earlier in this function: the failure facts below then prove nothing here
+    early_restore = None
+    for I in restores:
+        if ir.PathFinder(F, const_ret=crm).search(F.entry, lambda X, I=I: X.id == I.id, blockers=wgood) is not None:
+            early_restore = I
+            break
 
     def accept(st, trail, F=F):
         # a path that observed the failure of a libc-backed resource call has errno from libc (E-ext)
@@ -256,7 +272,7 @@ def must_write_or_err(m, S, fn, k, memo, crm):
             for p1, a1, b1 in lits:
                 if p1 == "ne" and b1 == "0" and a1.startswith("load(") and ("eq", a1, "0") in lits:
                     return False
-        for a in st.facts:
+        for a in ([] if early_restore is not None else st.facts):
             p_, a_, b_ = ir.atom_str(F, a, st)
             for pat_p, pat_a, why in LIBC_FAIL_FACTS:
                 if p_ == pat_p and b_ == "0" and re.match(pat_a, a_):
